@@ -50,7 +50,8 @@ pub enum HostileOp {
     MutatedOuter { ev: EvRef, mode: u8, seed: u32 },
     /// invitation built by `node` with its own openmls group. mode: 0 fresh random group id,
     /// 1 MLS group id of a group the victim holds (g), 2 as 1 + colliding nostr id, 3 malformed
-    /// content, 4 missing encoding tag, 5 rumor without an id
+    /// content, 4 missing encoding tag, 5 rumor without an id, 6 fresh group id but the Nostr
+    /// group id that group g was last rotated to
     HostileWelcome { victim: usize, mode: u8, g: usize, seed: u32 },
     /// hand a hostile welcome / re-delivery of any welcome under a new wrapper id
     RewrappedWelcome { w: EvRef, seed: u32 },
@@ -631,6 +632,7 @@ pub fn exec(w: &mut World, step: &Step, h: HostileOp) -> Outcome {
             let target_gid = w.gid(g);
             let victim_nostr = w.gview(victim, g).and_then(|v| v.record.as_ref()).map(|r| r.nostr_group_id.clone());
             let attacker_pk = w.nodes[node].pubkey();
+            let rotated_to: Option<[u8; 32]> = w.rotations.iter().rev().find(|(gg, _)| *gg == g).map(|(_, id)| *id);
             let r: Result<UnsignedEvent, String> = with_mdk!(w.nodes[node].mdk(), m => (|| {
                 let kp = m.parse_key_package(&vkp).map_err(|e| e.to_string())?;
                 // group data: take it from a scratch group created through the public API
@@ -638,8 +640,11 @@ pub fn exec(w: &mut World, step: &Step, h: HostileOp) -> Outcome {
                 let scratch = m.create_group(&attacker_pk, vec![], cfg).map_err(|e| e.to_string())?;
                 let sg = m.load_mls_group(&scratch.group.mls_group_id).map_err(|e| e.to_string())?.ok_or("no scratch group")?;
                 let mut exts = sg.extensions().clone();
-                if mode == 2 {
-                    if let Some(n) = &victim_nostr {
+                if mode == 2 || mode == 6 {
+                    // 2: the id the victim's copy of group g has now; 6: the id group g was last
+                    // rotated to (public on the relay as an h tag, possibly not yet known to the victim)
+                    let squat: Option<String> = if mode == 6 { rotated_to.map(hex::encode) } else { victim_nostr.clone() };
+                    if let Some(n) = &squat {
                         let mut idb = [0u8; 32];
                         let _ = hex::decode_to_slice(n, &mut idb);
                         let mut bytes = None;
